@@ -188,6 +188,8 @@ def malformed(rng):
     out.append(("second-archs", name + sp + b"[" + a + b"]" + ly.ws(0) + b"[" + b + b"]"))
     out.append(("second-archs", name + sp + b"[" + a + b"]" + sp + b"<x>" + ly.ws(0) + b"[" + b + b"]"))
     out.append(("unknown-operator", name + sp + b"(" + rng.choice([b"==", b">", b"<", b"!=", b"~", b"=>", b"=<", b"<>", b"eq"]) + b" 1.0)"))
+    # a known operator with a third operator character behind it is no operator either
+    out.append(("unknown-operator", name + sp + b"(" + rng.choice([b">=", b"<=", b"<<", b">>"]) + rng.choice([b"=", b"<", b">"]) + rng.choice([b" ", b""]) + b"1.0)"))
     out.append(("two-names", name + sp + rng.choice(PKG)))
     out.append(("two-names", name + sp + b"(>= 1)" + sp + rng.choice(PKG)))
     out.append(("two-names", good + b"," + name + sp + rng.choice(PKG) + b", " + good))
